@@ -9,6 +9,8 @@ See /verif/DESIGN.md section 2.
 """
 import itertools
 import math
+import os
+import sys
 import time
 from fractions import Fraction
 
@@ -253,6 +255,9 @@ def _poison(why):
     ex = CUR
     if ex is None:
         raise EngineError("concrete " + why)
+    if os.environ.get('VERIF_DEBUG_POISON'):
+        import traceback
+        sys.stderr.write('POISON ' + why + '\n' + ''.join(traceback.format_stack(limit=18)) + '\n')
     ex.guards.append(z3.BoolVal(True))
     return ex.fresh('poison', 'r')
 
